@@ -236,6 +236,35 @@ def body_fn(case):
                         require(p2 == 0.0, 'foreign_partial', 'partial2(%d,%d) is %r' % (a, b, p2))
                     close(np.array(p2), np.array(want), tol1, 1.0 + abs(want), 'partial2_value', 'partial2(%d,%d) of %s at %s' % (a, b, fam, x))
                     close(np.array(h[a, b]), np.array(p2), 1e-14, 1.0 + abs(p2), 'hessian_value', 'hessian[%d,%d] vs partial2' % (a, b))
+    # results handed out earlier stay what they were: the gradient / Hessian at the first point, kept by the caller while the same
+    # function object is evaluated at the other points (and even scribbled on by the caller), still is the derivative at that point
+    if X.shape[1] >= 2:
+        x1, x2 = X[:, 0].copy(), X[:, 1].copy()
+        g1 = f.gradient(x1)
+        g1_val = np.array(g1, dtype=float, copy=True)
+        try:
+            h1 = f.hessian(x1)
+            h1_val = np.array(h1, dtype=float, copy=True)
+        except NotImplementedError:
+            h1 = None
+        g2 = f.gradient(x2)
+        if isinstance(g2, np.ndarray) and g2.flags.writeable:
+            g2 += 1.0                              # the caller owns what it was given
+        if h1 is not None:
+            h2 = f.hessian(x2)
+            if isinstance(h2, np.ndarray) and h2.flags.writeable:
+                h2 += 1.0
+        require(np.array_equal(np.asarray(g1, dtype=float), g1_val), 'gradient_value', 'the gradient returned for the first point changed when the '
+                'function was evaluated at another point (shared output buffer)')
+        if h1 is not None:
+            require(np.array_equal(np.asarray(h1, dtype=float), h1_val), 'hessian_value', 'the Hessian returned for the first point changed when the '
+                    'function was evaluated at another point (shared output buffer)')
+        g3 = np.asarray(f.gradient(x1), dtype=float)
+        require(np.array_equal(g3, g1_val), 'gradient_value', 'gradient at the first point differs after the caller modified an array returned earlier')
+        if h1 is not None:
+            h3 = np.asarray(f.hessian(x1), dtype=float)
+            require(np.array_equal(h3, h1_val), 'hessian_value', 'Hessian at the first point differs after the caller modified an array returned earlier')
+        lab.add('earlier_results_kept')
     return lab
 
 
